@@ -102,7 +102,8 @@ fn gen_input(rng: &mut Rng, idx: u64, directed: &[(String, Vec<u8>)]) -> (String
         }
         _ => {
             // (every mutator gets its share of every run: by index, not by chance)
-            let m = (idx % mutate::N_MUTATORS as u64) as usize;
+            // (... and bracket damage a larger one: those are the inputs on which the loader, not the parser, decides)
+            let m = if idx % 4 == 1 { 17 } else { (idx % mutate::N_MUTATORS as u64) as usize };
             let (bytes, label) = mutate::mutate(rng, &Base { words: &b.words, starts: &b.starts, insts: &b.insts }, m);
             (format!("m{} {}", m, label), bytes)
         }
